@@ -606,6 +606,141 @@ def _only_value_choice(x):
                for y in x["inner"][1:])
 
 
+# ---------------------------------------------------------------------------------------------- s_callbacks of cbor.c
+WIDEN = ("IntegralCast", "FloatingCast", "NoOp", "LValueToRValue", "BitCast", "IntegralToBoolean")
+
+
+def _direct_param(e, params):
+    """the parameter `e` is, through nothing but casts / parentheses; else None"""
+    while True:
+        k = e.get("kind")
+        if k in ("ParenExpr", "ConstantExpr"):
+            e = e["inner"][0]
+        elif k in ("ImplicitCastExpr", "CStyleCastExpr") and e.get("castKind") in WIDEN:
+            e = e["inner"][0]
+        elif k == "DeclRefExpr" and e.get("referencedDecl", {}).get("kind") == "ParmVarDecl" and e["referencedDecl"]["name"] in params:
+            return e["referencedDecl"]["name"]
+        else:
+            return None
+
+
+def _callback_effect(name, fns, depth=0):
+    """what an aws callback of cbor.c does: (aws type enum name, union field or '', casts applied to the value on the way)
+    Every value stored must be a parameter passed through casts only; the type stored must be one enum constant."""
+    if depth > 3 or name not in fns:
+        raise GenError(f"s_callbacks: cannot resolve {name}")
+    fn = fns[name]
+    params = [p["name"] for p in _params(fn)]
+    body = _body(fn)
+    types, fields, casts = [], [], []
+    for x in _walk(body):
+        if x.get("kind") in ("ConditionalOperator", "WhileStmt", "ForStmt", "SwitchStmt", "GotoStmt"):
+            raise GenError(f"{name}: control flow outside the recognised callback shape")
+        if x.get("kind") == "BinaryOperator" and x.get("opcode") == "=":
+            lhs = _strip(x["inner"][0])
+            chain = []
+            m = lhs
+            while m.get("kind") == "MemberExpr":
+                chain.append(m.get("name"))
+                m = _strip(m["inner"][0])
+            if "cached_context" in chain:
+                if chain[0] == "type":
+                    r = _strip(x["inner"][1])
+                    if not (r.get("kind") == "DeclRefExpr" and r.get("referencedDecl", {}).get("kind") == "EnumConstantDecl"):
+                        raise GenError(f"{name}: the element type stored is not a single AWS_CBOR_TYPE_* constant")
+                    types.append(r["referencedDecl"]["name"])
+                else:
+                    if _direct_param(x["inner"][1], params) is None:
+                        raise GenError(f"{name}: the value stored into cached_context.u.{chain[-3] if len(chain) > 2 else chain[0]} is not the "
+                                       "callback argument passed through casts only")
+                    fields.append(".".join(reversed(chain[:chain.index("u")])))
+                    c = x["inner"][1]
+                    while c.get("kind") in ("ImplicitCastExpr", "CStyleCastExpr", "ParenExpr"):
+                        if c.get("kind") != "ParenExpr" and c.get("castKind") in ("IntegralCast", "FloatingCast"):
+                            casts.append(c.get("type", {}).get("qualType", "?"))
+                        c = c["inner"][0]
+        cal = _callee(x)
+        if cal and cal.startswith("s_") and cal.endswith("_callback"):
+            args = x["inner"][1:]
+            if _direct_param(args[0], params) != params[0]:
+                raise GenError(f"{name}: does not pass its context on")
+            for a in args[1:]:
+                if _direct_param(a, params) is None:
+                    raise GenError(f"{name}: passes something other than its argument (through casts) to {cal}")
+                c = a
+                while c.get("kind") in ("ImplicitCastExpr", "CStyleCastExpr", "ParenExpr"):
+                    if c.get("kind") != "ParenExpr" and c.get("castKind") in ("IntegralCast", "FloatingCast"):
+                        casts.append(c.get("type", {}).get("qualType", "?"))
+                    c = c["inner"][0]
+            t, f, cs = _callback_effect(cal, fns, depth + 1)
+            return t, f, casts + cs
+    if len(set(types)) != 1:
+        raise GenError(f"{name}: stores {sorted(set(types))} as element type (expected exactly one)")
+    return types[0], ",".join(sorted(set(fields))), casts
+
+
+def callbacks_table(objs_cb, objs_rec, fns):
+    var = [o for o in objs_cb if o.get("kind") == "VarDecl" and o.get("name") == "s_callbacks"]
+    rec = [o for o in objs_rec if o.get("kind") == "RecordDecl" and o.get("name") == "cbor_callbacks" and o.get("inner")]
+    if len(var) != 1 or not rec:
+        raise GenError("s_callbacks / struct cbor_callbacks not found")
+    slots = [c["name"] for c in rec[0]["inner"] if c.get("kind") == "FieldDecl"]
+    il = [c for c in var[0].get("inner", []) if c.get("kind") == "InitListExpr"]
+    if len(il) != 1 or len(il[0]["inner"]) != len(slots):
+        raise GenError("s_callbacks is not initialised field by field")
+    rows = []
+    for slot, e in zip(slots, il[0]["inner"]):
+        fname = _ref_name(e)
+        if fname is None:
+            raise GenError(f"s_callbacks.{slot} is not a function")
+        t, f, casts = _callback_effect(fname, fns)
+        rows.append((slot, fname, t, f, " ".join(casts)))
+    return rows
+
+
+# ---------------------------------------------------------------------------------------------- small accessors
+def _render(n):
+    """compact C-like rendering of a statement / expression tree (casts and parentheses dropped): the *shape* of a
+    small accessor function, compared literally by a theorem"""
+    k = n.get("kind")
+    inner = [c for c in n.get("inner", []) or [] if isinstance(c, dict)]
+    if k in ("ImplicitCastExpr", "ParenExpr", "ConstantExpr", "CStyleCastExpr"):
+        return _render(inner[0])
+    if k == "CompoundStmt":
+        return "{" + " ".join(_render(c) for c in inner) + "}"
+    if k == "ReturnStmt":
+        return "return " + (_render(inner[0]) if inner else "") + ";"
+    if k == "DeclStmt":
+        return " ".join(_render(c) for c in inner)
+    if k == "VarDecl":
+        return f"{n.get('name')}=" + (_render(inner[0]) if inner else "?") + ";"
+    if k == "IfStmt":
+        return "if(" + _render(inner[0]) + ")" + _render(inner[1]) + ("else" + _render(inner[2]) if len(inner) > 2 else "")
+    if k == "DeclRefExpr":
+        return n["referencedDecl"]["name"]
+    if k == "MemberExpr":
+        return _render(inner[0]) + ("->" if n.get("isArrow") else ".") + n.get("name", "?")
+    if k in ("BinaryOperator", "CompoundAssignOperator"):
+        return "(" + _render(inner[0]) + n.get("opcode", "?") + _render(inner[1]) + ")"
+    if k == "UnaryOperator":
+        return (_render(inner[0]) + n.get("opcode") if n.get("isPostfix") else n.get("opcode", "?") + _render(inner[0]))
+    if k == "CallExpr":
+        return _render(inner[0]) + "(" + ",".join(_render(c) for c in inner[1:]) + ")"
+    if k == "IntegerLiteral":
+        return str(n.get("value"))
+    if k == "CXXBoolLiteralExpr":
+        return "true" if n.get("value") else "false"
+    if k == "ConditionalOperator":
+        return "(" + _render(inner[0]) + "?" + _render(inner[1]) + ":" + _render(inner[2]) + ")"
+    if k == "NullStmt":
+        return ";"
+    return "<" + str(k) + ">" + "".join(_render(c) for c in inner)
+
+
+ACCESSORS = ["aws_cbor_encoder_new", "aws_cbor_encoder_reset", "aws_cbor_encoder_get_encoded_data", "s_get_encoder_current_position",
+             "s_get_encoder_remaining_len", "aws_cbor_decoder_new", "aws_cbor_decoder_get_remaining_length"]
+
+
 def _objs(tu, filt, inc):
     import subprocess, tempfile
     with tempfile.TemporaryDirectory() as d:
@@ -685,6 +820,25 @@ def generate(repo, cfg_inc):
                            and not _only_value_choice(x) for x in _walk(_body(fn)))})
     out.append("/-- writers (other than write_float and the type-only switch) with a branch that is not a fatal assertion or a choice of the value passed -/")
     out.append("def writersWithBranch : List String := [" + ", ".join(_s(n) for n in cond) + "]\n")
+    # bookkeeping accessors: their whole (tiny) body, rendered
+    acc = {}
+    for pre in ("aws_cbor_encoder_", "aws_cbor_decoder_", "s_get_encoder_"):
+        acc.update(cfun.dump_functions(f'#include "{src}"\n', pre, inc))
+    rows_acc = []
+    for nm in ACCESSORS:
+        if nm not in acc:
+            raise GenError(f"{nm} not found in cbor.c")
+        rows_acc.append((nm, _render(_body(acc[nm]))))
+    out.append("/-- bodies of the bookkeeping functions of cbor.c (casts / parentheses dropped) -/")
+    out.append("def accessorBodies : List (String × String) := [\n" + ",\n".join(f"  ({_s(a)}, {_s(b)})" for a, b in rows_acc) + "]\n")
+    # the callback table handed to libcbor
+    cbf = cfun.dump_functions(f'#include "{src}"\n', "s_", inc)
+    cbf = {k: v for k, v in cbf.items() if k.endswith("_callback")}
+    cb_rows = callbacks_table(_objs(f'#include "{src}"\n', "s_callbacks", inc), _objs(f'#include "{src}"\n', "cbor_callbacks", inc), cbf)
+    out.append("/-- `s_callbacks` of cbor.c, slot by slot: (libcbor callback slot, aws function, AWS_CBOR_TYPE_* it stores, union field it")
+    out.append("fills, casts applied to the libcbor argument on the way — the argument is stored through casts only) -/")
+    out.append("def awsCallbacks : List (String × String × String × String × String) := [\n" + ",\n".join(
+        f"  ({_s(a)}, {_s(b)}, {_s(c)}, {_s(d)}, {_s(e)})" for a, b, c, d, e in cb_rows) + "]\n")
     # delegation: which writer functions the type-only writers call
     deleg = []
     for name, fn in sorted(wf.items()):
